@@ -61,7 +61,9 @@ def feature_label(f):
     # the operator of a compound location (GenBank `order(...)` vs `join(...)`) says how the parts relate: it is part of
     # what the feature IS, not of where it lies, and is carried like type and qualifiers
     op = getattr(f.location, "operator", "join") if f.location is not None and len(f.location.parts) > 1 else "join"
-    return "%s|%s|%s%s" % (f.type, f.id, json.dumps(q, sort_keys=True), "" if op == "join" else "|op=" + str(op))
+    # ... and so is the fuzziness of its ends (GenBank `<3..>9`): counted, because the reverse complement turns `<` into `>`
+    fz = 0 if f.location is None else sum(1 for p_ in f.location.parts for x in (p_.start, p_.end) if type(x).__name__ != "ExactPosition")
+    return "%s|%s|%s%s%s" % (f.type, f.id, json.dumps(q, sort_keys=True), "" if op == "join" else "|op=" + str(op), "|fuzzy=%d" % fz if fz else "")
 
 
 def meta_token(rec):
